@@ -107,35 +107,36 @@ def upsertNode (nodes : List Node) (k : Bytes) (f : Node → Node) : List Node :
     Counting a key: RBT counts in allocNode and when `flags == 0 && vptr.IsNull() && isDeleted()`; ART counts in setValue when
     `flags == 0 && vLogAddr.IsNull() || isDeleted()`.  Both mean "the node is new or was marked deleted" — except that
     ART's condition is also true for an EXISTING live leaf without flags and without value; the model follows RBT there. -/
+def writeCore (m : VLog) (k : Bytes) (v : Option Bytes) (ops : List Nat) : VLog :=
+  let dirty0 := m.dirty || m.stages.isEmpty
+  let n := (m.findNode k).getD (freshNode k)
+  let isNew := n.deleted
+  let len1 := if isNew then m.len + 1 else m.len
+  let size1 := if isNew then m.size + (k.length : Int) else m.size
+  let flags' := Spec.writeFlags n.flags v ops
+  let dirty1 := dirty0 || KeyFlags.andPersistent flags' != 0
+  match v with
+  | none =>
+    { m with nodes := upsertNode m.nodes k (fun n => { n with flags := flags', deleted := false }),
+             len := len1, size := size1, dirty := dirty1 }
+  | some x =>
+    -- setValue / trySwapValue
+    let oldVal := if n.vptr = 0 then [] else getValue m.log n.vptr
+    let swap := n.vptr != 0 && canModify m.stages.getLast? n.vptr && oldVal.length > 0 && oldVal.length == x.length
+    if swap then
+      { m with nodes := upsertNode m.nodes k (fun n => { n with flags := flags', deleted := false }),
+               log := swapAt m.log n.vptr x, len := len1, size := size1, dirty := dirty1 }
+    else
+      { m with nodes := upsertNode m.nodes k (fun n => { n with flags := flags', deleted := false, vptr := m.log.length + 1 }),
+               log := { key := k, old := n.vptr, value := x } :: m.log,
+               len := len1, size := size1 + (x.length : Int) - (oldVal.length : Int), dirty := dirty1 }
+
 def write (m : VLog) (k : Bytes) (v : Option Bytes) (ops : List Nat) : VLog × Out :=
   if k.length > Gen.MemLimits.maxKeyLen then (m, .err .keyTooLarge)
   else if (match v with | some x => decide (k.length + x.length > m.entryLimit) | none => false) then (m, .err .entryTooLarge)
   else
-    let dirty0 := m.dirty || m.stages.isEmpty
-    let n := (m.findNode k).getD (freshNode k)
-    let isNew := n.deleted
-    let len1 := if isNew then m.len + 1 else m.len
-    let size1 := if isNew then m.size + (k.length : Int) else m.size
-    let flags' := match v with
-      | some _ => KeyFlags.applyOps n.flags (KeyFlags.delNeedConstraintCheck :: ops)
-      | none => KeyFlags.applyOps n.flags ops
-    let dirty1 := dirty0 || KeyFlags.andPersistent flags' != 0
-    match v with
-    | none =>
-      ({ m with nodes := upsertNode m.nodes k (fun n => { n with flags := flags', deleted := false }),
-                len := len1, size := size1, dirty := dirty1 }, .ok)
-    | some x =>
-      let oldVal := if n.vptr = 0 then [] else getValue m.log n.vptr
-      let swap := n.vptr != 0 && canModify m.stages.getLast? n.vptr && oldVal.length > 0 && oldVal.length == x.length
-      let m' : VLog :=
-        if swap then
-          { m with nodes := upsertNode m.nodes k (fun n => { n with flags := flags', deleted := false }),
-                   log := swapAt m.log n.vptr x, len := len1, size := size1, dirty := dirty1 }
-        else
-          { m with nodes := upsertNode m.nodes k (fun n => { n with flags := flags', deleted := false, vptr := m.log.length + 1 }),
-                   log := { key := k, old := n.vptr, value := x } :: m.log,
-                   len := len1, size := size1 + (x.length : Int) - (oldVal.length : Int), dirty := dirty1 }
-      if m'.size > (m.bufLimit : Int) then (m', .err .txnTooLarge) else (m', .ok)
+    let m' := m.writeCore k v ops
+    if v.isSome && decide (m'.size > (m.bufLimit : Int)) then (m', .err .txnTooLarge) else (m', .ok)
 
 /-- RevertVAddr(hdr) for the newest entry `e`; `rest` is the log behind it -/
 def revertVAddr (e : Entry) (rest : List Entry) (nodes : List Node) (len size : Int) : List Node × Int × Int :=
